@@ -80,9 +80,18 @@ def functions_of(path):
     return out
 
 
+def is_class_expr(node):
+    """x.__class__ / type(x): the class object is shared by all parses, whatever x is."""
+    if isinstance(node, ast.Attribute) and node.attr == "__class__":
+        return True
+    return isinstance(node, ast.Call) and isinstance(node.func, ast.Name) and node.func.id == "type" and len(node.args) == 1
+
+
 def root_name(node):
     while isinstance(node, (ast.Attribute, ast.Subscript)):
         node = node.value
+        if is_class_expr(node):
+            return "<class>"
     return node.id if isinstance(node, ast.Name) else None
 
 
@@ -134,14 +143,16 @@ class FrameCase(Case):
             shared = []
             for lineno, desc, root in stores_of(fn):
                 role = roles.get(root)
-                if role == "shared" or root == "<global>":
+                if role == "shared" or root in ("<global>", "<class>"):
                     shared.append(f"line {lineno}: {desc}")
                 elif role is None and root is not None and root not in STREAM_NAMES:
                     # a local variable: local unless it aliases a shared parameter attribute (x = self.foo; x.append())
                     for node in ast.walk(fn):
                         if isinstance(node, ast.Assign) and any(isinstance(t, ast.Name) and t.id == root for t in node.targets):
                             r2 = root_name(node.value) if isinstance(node.value, (ast.Attribute, ast.Subscript)) else None
-                            if r2 is not None and roles.get(r2) == "shared":
+                            if is_class_expr(node.value):
+                                r2 = "<class>"
+                            if r2 is not None and (roles.get(r2) == "shared" or r2 == "<class>"):
                                 shared.append(f"line {lineno}: {desc} ({root} aliases {ast.unparse(node.value)})")
             ctx.prove(f"{q}/assigns-nothing-shared", not shared, info="; ".join(shared)[:400] or "no store to a shared receiver")
         ctx.cover("scanned")
